@@ -254,18 +254,23 @@ def asgiHeader (lit : Str) (hs : List (Bytes × Bytes)) : PyM Str :=
 source did before commit 14bb0ad: `parse_qs` on the `bytes` query string, which yields `bytes` keys (so
 `'name[]' in params` is never true) and raises `UnicodeEncodeError` / `UnicodeDecodeError` on non-ASCII escapes or
 bytes (`parseQsB q = .error .unicodeError`); it is kept so that a regression changes the model's behaviour rather than
-breaking the extraction. -/
-def asgiParams (parseQs : Str → List (Str × List Str)) (parseQsB : Bytes → PyM (List (Bytes × List Bytes)))
-    (q : Bytes) : PyM Params :=
-  if asgiQueryDecoded then (decodeWith asgiQueryCodec q).map fun s => strParams (parseQs s)
+breaking the extraction.
+
+`parseQs` is `parse_qs` with its default percent-decoding (`encoding='utf-8', errors='replace'`), which is what the WSGI
+app and MetricsHandler call.  When asgi.py passes other `encoding=` / `errors=` arguments (`asgiParseDefault = false`;
+the arguments are extracted as `asgiParseEncoding` / `asgiParseErrors`) it calls a DIFFERENT function, `parseQsAlt`. -/
+def asgiParams (parseQs parseQsAlt : Str → List (Str × List Str))
+    (parseQsB : Bytes → PyM (List (Bytes × List Bytes))) (q : Bytes) : PyM Params :=
+  if asgiQueryDecoded then
+    (decodeWith asgiQueryCodec q).map fun s => strParams ((if asgiParseDefault then parseQs else parseQsAlt) s)
   else (parseQsB q).map bytesParams
 
 /-- No method or path dispatch.  Evaluation order of the source: params, Accept join, Accept-Encoding join, then
 `_bake_output`; an exception in any of them leaves the coroutine.  The answer is sent when `receive()` yields an
 `http.request` message, which is what the model assumes.  All headers of `_bake_output` are forwarded. -/
-def asgiApp {B : Type} (env : Env B) (parseQs : Str → List (Str × List Str))
+def asgiApp {B : Type} (env : Env B) (parseQs parseQsAlt : Str → List (Str × List Str))
     (parseQsB : Bytes → PyM (List (Bytes × List Bytes))) (disable : Bool) (s : Scope) : PyM (Resp B) :=
-  match asgiParams parseQs parseQsB (s.queryString.getD []) with
+  match asgiParams parseQs parseQsAlt parseQsB (s.queryString.getD []) with
   | .error e => .error e
   | .ok params =>
     match asgiHeader asgiAcceptName s.headers with
